@@ -149,6 +149,68 @@ theorem main_no_writer (spill wpc : Nat) (t : Tree α)
           not_true_eq_false, if_false, List.append_nil]
       · simp [optBytes, d1]
 
+/-! ### any schedule of the task graph -/
+
+/-- **Schedule independence.**  However the scheduler orders the tasks of the graph (any sequence of
+enabled partition / merge tasks, interleaved arbitrarily across the tree), an execution that runs
+the graph to completion ends with exactly the chunk `eval` computes, and the writer calls it made
+are exactly `eval`'s, up to order. -/
+theorem schedule_result (cfg : Cfg) (total : Nat) (t : Tree α) (idx : Nat) (c : Chunk α)
+    (log : List (Part α))
+    (h : Steps cfg total (Run.ofTree t idx, []) (.done c, log)) :
+    ∃ ws, eval cfg total t idx = .ok (c, ws) ∧ List.Perm log ws := by
+  obtain ⟨ws', hr, hp⟩ := steps_rel cfg total h (rel_ofTree cfg total t idx) (List.Perm.refl _)
+  cases hr with
+  | done _ _ _ ws _ he hpw => exact ⟨ws, he, List.Perm.trans hp hpw⟩
+
+/-- **No schedule gets stuck**: while `eval` of the whole tree succeeds, every state that is not
+finished has an enabled task. -/
+theorem schedule_progress (cfg : Cfg) (total : Nat) {r : Run α} {t : Tree α} {idx : Nat}
+    {ws : List (Part α)} (hr : Rel cfg total r t idx ws) (log : List (Part α))
+    (hok : ∃ c w, eval cfg total t idx = .ok (c, w)) :
+    (∃ c, r = .done c) ∨ ∃ r' log', Step cfg total (r, log) (r', log') := by
+  induction hr generalizing log with
+  | leafTodo idx chunks =>
+    right
+    obtain ⟨c, w, he⟩ := hok
+    exact ⟨.done c, log ++ w, Step.leaf idx chunks c w log (by simpa [eval] using he)⟩
+  | nodeTodo l r tl tr idx wl wr hl hr ihl ihr =>
+    right
+    obtain ⟨c, w, he⟩ := hok
+    -- both children evaluate (otherwise the node would fail)
+    have hcl : ∃ cl wl', eval cfg total tl idx = .ok (cl, wl') := by
+      cases h : eval cfg total tl idx with
+      | error e => simp [eval, h] at he
+      | ok p => exact ⟨p.1, p.2, rfl⟩
+    obtain ⟨cl, wl', hel⟩ := hcl
+    have hcr : ∃ cr wr', eval cfg total tr (idx + tl.leaves) = .ok (cr, wr') := by
+      cases h : eval cfg total tr (idx + tl.leaves) with
+      | error e => simp [eval, hel, h] at he
+      | ok p => exact ⟨p.1, p.2, rfl⟩
+    obtain ⟨cr, wr', her⟩ := hcr
+    rcases ihl log ⟨cl, wl', hel⟩ with ⟨cl0, rfl⟩ | ⟨l', log', hs⟩
+    · rcases ihr log ⟨cr, wr', her⟩ with ⟨cr0, rfl⟩ | ⟨r', log', hs⟩
+      · -- both done: the merge task is enabled
+        cases hl with
+        | done _ _ _ wsl _ hel' _ =>
+          cases hr with
+          | done _ _ _ wsr _ her' _ =>
+            rw [hel] at hel'; rw [her] at her'
+            obtain ⟨rfl, rfl⟩ := Prod.mk.inj (Except.ok.inj hel')
+            obtain ⟨rfl, rfl⟩ := Prod.mk.inj (Except.ok.inj her')
+            cases hm : mergeAndSpill cfg.writer cfg.spill cl cr with
+            | error e => simp [eval, hel, her, hm] at he
+            | ok p => exact ⟨.done p.1, log ++ p.2, Step.node cl cr p.1 p.2 log hm⟩
+      · exact ⟨.nodeTodo (.done cl0) r', log', Step.right _ _ _ _ _ hs⟩
+    · exact ⟨.nodeTodo l' r, log', Step.left _ _ _ _ _ hs⟩
+  | done c t idx ws ws' he hp => left; exact ⟨c, rfl⟩
+
+/-- **Every schedule is finite**: each task that fires removes exactly one task from the to-do set,
+so an execution has exactly as many steps as the graph has tasks. -/
+theorem schedule_step_count (cfg : Cfg) (total : Nat) {s s' : Run α × List (Part α)}
+    (h : Step cfg total s s') : s'.1.todo + 1 = s.1.todo :=
+  step_todo cfg total h
+
 /-! ### non-vacuity and a concrete run -/
 
 /-- The hypotheses of `main` are met by a concrete non-trivial configuration (the replay of
